@@ -152,8 +152,21 @@ class Alt:
         self.cond, self.end, self.groups = cond, end, groups
 
 
-def alternatives(pat: re.Pattern, buf: SSeq, s: int, endpos=None, max_alts=MAX_ALTS, counter=None):
-    """Ordered list of Alt for matching `pat` at concrete start s."""
+class _Found(BaseException):
+    def __init__(self, alt):
+        self.alt = alt
+
+
+COMPILE_ALTS = 1500  # beyond this the matcher is *executed* with one fork per test
+
+
+def alternatives(pat: re.Pattern, buf: SSeq, s: int, endpos=None, max_alts=MAX_ALTS, counter=None, execute=False,
+                 accept=None):
+    """Ordered list of Alt for matching `pat` at concrete start s.
+
+    execute=True: instead of collecting conditions, every test is decided on the spot
+    (Ctx.decide, forking); the first alternative that completes is the match and is
+    returned through _Found -- a symbolic *execution* of the backtracking matcher."""
     tree = parsed(pat)
     env = _Env(pat, buf)
     flags = pat.flags
@@ -185,8 +198,22 @@ def alternatives(pat: re.Pattern, buf: SSeq, s: int, endpos=None, max_alts=MAX_A
         t = _test(key, pred_fn, elems[pos])
         if z3.is_false(t):
             return None
+        if execute:
+            if not z3.is_true(ib) and not ctx().decide(ib):
+                return None
+            if not z3.is_true(t) and not ctx().decide(t):
+                return None
+            return cond
         add = [c for c in (ib, t) if not z3.is_true(c)]
         return cond + add if add else cond
+
+    def also(cond, cnd):
+        """conjoin a side condition (anchors, lookaround)"""
+        if z3.is_true(cnd):
+            return cond
+        if execute:
+            return cond if ctx().decide(cnd) else None
+        return cond + [cnd]
 
     def at_end_cond(pos):
         if nconc is not None:
@@ -261,7 +288,8 @@ def alternatives(pat: re.Pattern, buf: SSeq, s: int, endpos=None, max_alts=MAX_A
                 ec = at_end_cond(pos)
                 if z3.is_false(ec):
                     return None
-                return k(pos, cond if z3.is_true(ec) else cond + [ec], groups)
+                c2 = also(cond, ec)
+                return k(pos, c2, groups) if c2 is not None else None
             if av is C.AT_END:
                 ec = at_end_cond(pos)
                 alts = [ec]
@@ -273,7 +301,8 @@ def alternatives(pat: re.Pattern, buf: SSeq, s: int, endpos=None, max_alts=MAX_A
                 cnd = z3.simplify(z3.Or(*alts))
                 if z3.is_false(cnd):
                     return None
-                return k(pos, cond if z3.is_true(cnd) else cond + [cnd], groups)
+                c2 = also(cond, cnd)
+                return k(pos, c2, groups) if c2 is not None else None
             if av is C.AT_BEGINNING_STRING or (av is C.AT_BEGINNING and not flags & re.MULTILINE):
                 if pos == 0:
                     return k(pos, cond, groups)
@@ -281,7 +310,8 @@ def alternatives(pat: re.Pattern, buf: SSeq, s: int, endpos=None, max_alts=MAX_A
             if av is C.AT_BEGINNING:
                 if pos == 0:
                     return k(pos, cond, groups)
-                return k(pos, cond + [elems[pos - 1] == 10], groups)
+                c2 = also(cond, elems[pos - 1] == 10)
+                return k(pos, c2, groups) if c2 is not None else None
             raise Unsupported(f"AT {av}")
         if op in (C.ASSERT, C.ASSERT_NOT):
             direction, sub = av
@@ -307,10 +337,16 @@ def alternatives(pat: re.Pattern, buf: SSeq, s: int, endpos=None, max_alts=MAX_A
             cnd = z3.simplify(present if op is C.ASSERT else z3.Not(present))
             if z3.is_false(cnd):
                 return None
-            return k(pos, cond if z3.is_true(cnd) else cond + [cnd], groups)
+            c2 = also(cond, cnd)
+            return k(pos, c2, groups) if c2 is not None else None
         raise Unsupported(f"regex op {op}")
 
     def final(p, c, g):
+        if execute:
+            a = Alt(z3.BoolVal(True), p, g)
+            if accept is None or accept(a):
+                raise _Found(a)
+            return
         count[0] += 1
         if count[0] > max_alts:
             raise BoundExceeded("too many regex alternatives")
@@ -400,6 +436,28 @@ def _search(pat, buf: SSeq, pos=0, endpos=None, anchored=False, full=False, must
     else:
         n = None
         starts = [pos] if anchored else range(pos, buf.cap + 1)
+    if c.fork_indices:
+        try:
+            return _search_compiled(pat, buf, pos, anchored, full, must_advance, starts, n, ngroups, c)
+        except BoundExceeded:
+            pass
+        # too many alternatives to compile: execute the matcher
+        for s in starts:
+            def accept(a, s=s):
+                if must_advance and s == pos and a.end == s:
+                    return False
+                if full and a.end != n:
+                    return False
+                return True
+            try:
+                alternatives(pat, buf, s, execute=True, accept=accept)
+            except _Found as f:
+                return SMatch(pat, buf, s, f.alt.end, dict(f.alt.groups), ngroups, pos)
+        return None
+    return _search_compiled(pat, buf, pos, anchored, full, must_advance, starts, n, ngroups, c)
+
+
+def _search_compiled(pat, buf, pos, anchored, full, must_advance, starts, n, ngroups, c):
     entries = []
     counter = [0]
     for s in starts:
@@ -409,7 +467,7 @@ def _search(pat, buf: SSeq, pos=0, endpos=None, anchored=False, full=False, must
                 continue
         else:
             guard = None
-        for a in alternatives(pat, buf, s, counter=counter):
+        for a in alternatives(pat, buf, s, counter=counter, max_alts=COMPILE_ALTS if c.fork_indices else MAX_ALTS):
             cnd = a.cond
             if full:
                 cnd = z3.And(cnd, buf.zn() == a.end)
@@ -430,10 +488,7 @@ def _search(pat, buf: SSeq, pos=0, endpos=None, anchored=False, full=False, must
         return None
     if c.fork_indices:
         # choose the first alternative that holds: fork over its index
-        idx = z3.IntVal(-1)
-        for i, (cnd, s, a) in reversed(list(enumerate(entries))):
-            idx = z3.If(cnd, i, idx)
-        i = c.concretize(idx)
+        i = c.choose([e[0] for e in entries])
         if i < 0:
             return None
         cnd, s, a = entries[i]
